@@ -480,7 +480,13 @@ func (g *vc26Gen) arg(c *Call, used map[string]bool, depth int, reservedOK bool)
 		if lo == math.MaxInt64 || lo == math.MinInt64 || hi == math.MaxInt64 || hi == math.MinInt64 {
 			g.feat("conditional:edge")
 		}
-		return strconv.FormatInt(lo, 10) + g.sp() + op1 + g.sp() + f + g.sp() + op2 + g.sp() + strconv.FormatInt(hi, 10) + g.sp()
+		lotxt := strconv.FormatInt(lo, 10)
+		if g.wantErr == "" && !vkit.Open("DP3") && rapid.IntRange(0, 25).Draw(g.t, "cioor") == 0 {
+			lotxt = rapid.SampledFrom([]string{"9223372036854775808", "-9223372036854775809", "99999999999999999999"}).Draw(g.t, "cioortxt")
+			g.wantErr = "range"
+			g.feat("int:outofrange")
+		}
+		return lotxt + g.sp() + op1 + g.sp() + f + g.sp() + op2 + g.sp() + strconv.FormatInt(hi, 10) + g.sp()
 	}
 }
 
